@@ -260,9 +260,10 @@ func main() {
 
 	dt.wait()
 	runClockIndependence() // alone: it changes time.Local
+	runReflected()         // alone: it changes time.Local
 
 	R.Set("unconstrained_executed_not_judged", unconstrained.Load())
-	R.Rule("per family (see coverage keys family/*): accept side = every in-domain value of the stated domain (full domains: dates, HH:mm, PINs, weekday shapes, versions, system times, ports; all-pairs over boundary alphabets for card/profile/task) through json.Marshal -> json.Unmarshal into a fresh zero value and String() -> parser; reject side = every string of the stated small-alphabet families and every single-character substitution/deletion/insertion of the valid spellings, judged by three-valued reference recognisers; date-times = per zone the sorted, de-duplicated set of instants {transition day +-1 at 15 min (quick) / 5 min (thorough) steps, transition instant +-1 s, every hour of 2024, hourly samples in years 1, 1800, 1970, 9999}; clock independence = the text parsers on 6 virtual current dates (ordinary day, the days the clocks change, year end) x 3 process zones with time.Now() on engine E1's virtual clock; histories = every ordered pair of documents of each type (456 consecutive days + far years for dates, 121 HH:mm values, 39 task-type spellings, control states, PINs, versions, MACs, the four address roles, weekday / segment / card / time-profile / task / date-time documents incl. partial ones) decoded one directly after the other from one reused input buffer, the first result scribbled over in between, and HHmmFromString / ParseDate pairs; distinct = distinct inputs by construction (de-duplicated where families overlap)")
+	R.Rule("per family (see coverage keys family/*): accept side = every in-domain value of the stated domain (full domains: dates, HH:mm, PINs, weekday shapes, versions, system times, ports; all-pairs over boundary alphabets for card/profile/task) through json.Marshal -> json.Unmarshal into a fresh zero value and String() -> parser; reject side = every string of the stated small-alphabet families and every single-character substitution/deletion/insertion of the valid spellings, judged by three-valued reference recognisers; date-times = per zone the sorted, de-duplicated set of instants {transition day +-1 at 15 min (quick) / 5 min (thorough) steps, transition instant +-1 s, every hour of 2024, hourly samples in years 1, 1800, 1970, 9999}; clock independence = the text parsers on 6 virtual current dates (ordinary day, the days the clocks change, year end) x 3 process zones with time.Now() on engine E1's virtual clock; histories = every ordered pair of documents of each type (456 consecutive days + far years for dates, 121 HH:mm values, 39 task-type spellings, control states, PINs, versions, MACs, the four address roles, weekday / segment / card / time-profile / task / date-time documents incl. partial ones) decoded one directly after the other from one reused input buffer, the first result scribbled over in between, and HHmmFromString / ParseDate pairs; entry points found by reflection = every method of *T (17 public types) of the shape func([]byte | string | any) error other than UnmarshalJSON, offered sample values in the forms the type itself writes, in 3 process zones (a refusal is not judged, an accepted text must give the value it was written from); distinct = distinct inputs by construction (de-duplicated where families overlap)")
 	R.Assume("the Go toolchain, encoding/json and time/tzdata (zone arithmetic: Time.In, Time.Zone, time.Date) are trusted")
 	R.Assume("reference recognisers verif/spec/text.go, verif/spec/hhmm.go and the private calendar/address helpers of this harness are trusted (hand-written from the property text)")
 	R.Assume("date-time transitions are searched in 1800-01-01 ... 2101-01-01; later years repeat the last rule and are represented by year 9999")
@@ -273,6 +274,9 @@ func replay(kind string, c json.RawMessage) {
 	fmt.Printf("replaying kind=%s case=%s\n", kind, c)
 	before := R.Violations()
 	switch kind {
+	case "reflected":
+		fmt.Println("entry points found by reflection: re-running the family")
+		runReflected()
 	case "clock":
 		runClockIndependence()
 	case "history":
